@@ -271,3 +271,41 @@ def natural_loops(fn):
 
 def return_points(fn):
     return points_of(fn, lambda n: n['k'] == 'ReturnStmt')
+
+
+def paths_between(fn, start, target, avoid_blocks=(), limit=4000):
+    """Acyclic block paths from point start=(block, idx) to point target=(block, idx).
+    Yields dict {cond node id: truth} of the two-way branch decisions taken strictly between them
+    (the branch at the end of a block is recorded when the path leaves that block).
+    Returns (list_of_dicts, complete?)"""
+    sb, si = start
+    tb, ti = target
+    out = []
+    avoid = set(avoid_blocks)
+    if sb == tb and ti > si:
+        return [dict()], True
+    count = [0]
+    complete = [True]
+
+    def rec(b, visited, asg):
+        if count[0] > limit:
+            complete[0] = False
+            return
+        blk = fn.blocks[b]
+        for idx, s in enumerate(blk.succ):
+            if s is None or s < 0 or s in avoid:
+                continue
+            a2 = asg
+            if blk.cond is not None and len(blk.succ) == 2 and blk.tk != 'SwitchStmt':
+                a2 = dict(asg)
+                a2[blk.cond] = (idx == 0)
+            if s == tb:
+                count[0] += 1
+                out.append(a2)
+                continue
+            if s in visited:
+                continue
+            rec(s, visited | set([s]), a2)
+
+    rec(sb, set([sb]), {})
+    return out, complete[0]
